@@ -15,20 +15,22 @@ class C02(DiffProperty):
             "messages (lengths 0..20 on small rings, up to MAXLEN+3 on large ones, zero runs and pairs), 4 framings; the writer makes room by "
             "delivering and receiving when a push is short. verdict: messages received so far are at every step a prefix of the messages sent "
             "completely, every operation succeeds, and after drain the two lists are equal. non-trivial = every case; distinct = distinct case text")
-    modelled = ("flat level only: encoder (C01 model) + wire splitting + decoder loop (C03 model) composed in coq/Cobs/StreamProofs.v; the ring-window "
-                "mechanics of mptcore/queue/queue_push.c, queue_recv.c, queue_shift.c, message_get.c are NOT modelled — they are decided against the "
-                "specification by the correspondence run; mptio/stream/*.c (poll, read, writev) is represented by the harness' wire/grow rules, not run")
+    modelled = ("ring level: mptcore/queue/queue_push.c (all branches: aligned, upper part, lower part, out-of-band scratch copy, align-and-retry, second "
+                "push), queue_recv.c (MissingBuffer recovery with the chunked move), queue_shift.c, message_get.c transcribed in coq/Cobs/QueueCodec.v on top of "
+                "the C13 ring model and the C01/C03 codec models; the transport the harness plays (wire, receive, pump, retrying push) in coq/Cobs/StreamRun.v; "
+                "flat level: encoder o wire splitting o decoder loop composed in coq/Cobs/StreamProofs.v. mptio/stream/*.c (poll, read, writev) is represented by "
+                "the harness' wire/grow rules, not run; the raw (no encoder/decoder) modes of the queue functions are not modelled")
     trusted = ["harness/c02_stream.c plays the transport: it moves finished bytes between the rings and enlarges the reader ring when it is full or the "
                "decoder asks for buffer (as mptio/stream/stream_poll.c does with mpt_queue_prepare)"]
     assumptions = ["the reader ring can grow (realloc succeeds)", "OS-level partial writes/timeouts of mptio are outside the model"]
     level_text = ("proof (partial): Coq theorems C02_wire_splits_into_frames and C02_stream_integrity_flat: for all message sequences, all splits into pushes and "
                   "all capacity schedules the wire splits at its delimiters into one frame per message in order, and the decoder loop delivers exactly message i "
                   "from frame i given the scratch gap (with C03_segmentation_independent: for any cutting of the wire). The ring layer (queue_push windows, "
-                  "queue_recv recovery, queue_shift) is decided by differential execution against the specification 'received = sent' on rings of many "
-                  "capacities/offsets with arbitrary wire cuts incl. single-byte delivery")
-    level_note = ("partial: no mechanism-level model/theorem of the ring-window code (mpt_queue_push 5 branches, mpt_queue_recv MissingBuffer recovery, mpt_queue_shift); "
-                  "a change there is caught only through the specification-level comparison on explored histories, and a broken correspondence therefore "
-                  "always comes with a failing input. mptio stream glue (sockets, poll) is not executed. Theorems closed under the global context.")
+                  "queue_recv recovery, queue_shift) is tied by differential execution of a ring-level mechanism model (state compared after every operation) and "
+                  "decided against the specification 'received = sent' on rings of many capacities/offsets with arbitrary wire cuts incl. single-byte delivery")
+    level_note = ("partial: the theorems are at the flat byte-stream level; the ring-window code (mpt_queue_push, mpt_queue_recv, mpt_queue_shift) has an executable "
+                  "mechanism model that is compared with the implementation after every operation (ring offsets/lengths, encoder and decoder state, contents), but its "
+                  "refinement to the flat level is not yet a theorem. mptio stream glue (sockets, poll) is not executed. Theorems closed under the global context.")
     technique = "Coq composition theorem (encoder o wire o decoder, flat level) + specification-level differential check of the ring layer"
     coq_dir = "Cobs"
     propfile = "Properties_C02.v"
@@ -39,16 +41,24 @@ class C02(DiffProperty):
     libs = ["mptcore"]
 
     def compare(self, case, it, mt, st):
-        """verdict against the specification only: the messages received so far are, at every step, a prefix of
-        the messages handed over completely, every operation succeeds, and after `drain` the lists are equal"""
+        """correspondence: implementation vs ring-level mechanism model, token by token (messages, status, ring
+        offsets/lengths, encoder and decoder state, contents of both rings).  verdict against the specification:
+        the messages received so far are, at every step, a prefix of the messages handed over completely, every
+        operation succeeds, and after `drain` the lists are equal"""
         r = {"corr": None, "spec": None, "I": it, "M": mt, "S": st}
-        if it is None or st is None:
-            r["corr"] = (-1, "missing output", "I=%s S=%s" % (it is not None, st is not None))
+        if it is None or st is None or mt is None:
+            r["corr"] = (-1, "missing output", "I=%s M=%s S=%s" % (it is not None, mt is not None, st is not None))
             return r
+        for j in range(max(len(it), len(mt))):
+            a = it[j] if j < len(it) else "<none>"
+            b = mt[j] if j < len(mt) else "<none>"
+            if a != b:
+                r["corr"] = (j, a[:400], b[:400])
+                break
         ops = self.split(case)[1]
         got = []
         for j in range(max(len(it), len(st))):
-            a = it[j] if j < len(it) else "<none>"
+            a = it[j].split("#")[0] if j < len(it) else "<none>"
             b = st[j] if j < len(st) else "L:"
             sent = [x for x in b[2:].split(",") if x != ""] if b.startswith("L:") else []
             if a.startswith("F") or "|" not in a:
